@@ -9,6 +9,7 @@ plain NumPy arithmetic on the independently re-assembled dense operands (polynom
 from __future__ import annotations
 import itertools
 import numpy as np
+from fractions import Fraction
 from symx import catalogue as cat
 from symx import dense
 from symx.dense import reassemble
@@ -268,7 +269,7 @@ def k_pbc(ctx, spec):
     import yastn
     import yastn.tn.mps as mps
     rng, ops, N, D, symb, n = _setup(ctx, spec)
-    N = max(2, min(N, 3))
+    N = rng.choice([1, 2, 2, 3]) if sum(ops.space().D) <= 2 else rng.choice([1, 2])
     ph = ops.space()
     cfg = ops.config
     # periodic MPO: site tensors with a non-trivial virtual leg shared around the ring
@@ -287,6 +288,14 @@ def k_pbc(ctx, spec):
     Hd = np.trace(cur, axis1=0, axis2=cur.ndim - 1)
     lt = [l for _ in range(N) for l in (ph, ph.conj())]
     ctx.eq(reassemble(H.to_tensor(), lt), Hd, 'MpoPBC.to_tensor == trace over the ring')
+    # the separated factor (scalar multiplication, negation) belongs to the operator
+    c = rng.choice([Fraction(5, 2), Fraction(-1, 2), Fraction(3)])
+    c = c if ctx.mode == 'sym' else float(c)
+    H = c * H
+    Hd = c * Hd
+    ctx.eq(reassemble(H.to_tensor(), lt), Hd, 'c * MpoPBC: to_tensor carries the factor')
+    if rng.random() < 0.5:
+        H, Hd = -H, -Hd
     sy = None if sum(ph.D) ** N <= 8 else {0}
     a = _mk(ctx, rng, ops, N, 'a', 'mps', 2, n, 'real', sy)
     b = _same_charge(ctx, rng, ops, N, a, 'b', 2, 'real', sy)
